@@ -358,26 +358,24 @@ def plural_table(raws):
     return out
 
 
-def env_text(known, ranges, plurals, loadable):
-    """loadable: [(full version name e.g. 'score_1.1.0', coq module, definition name)]"""
+def env_text(known, ranges, plurals):
+    """Gen/C14_Env.v: what the bundled package knows about released versions (listing of schema_data), the id
+    ranges of library_data.json and the inflect plurals of the bundled unit names.  The schemas that
+    load_schema_version can load are named by each example itself (Proofs/C14Ex_*.v), so that a kernel evaluation
+    only drags in the one or two previous versions it needs."""
     L = ["(* GENERATED by harness/c14_gen.py: the environment of the bundled package -- versions listed in",
          "   hed/schema/schema_data (what the hed cache is populated from), id ranges of library_data.json,",
-         "   inflect plurals of the bundled unit names, and the schemas load_schema_version can load. *)",
+         "   inflect plurals of the bundled unit names. *)",
          "From Coq Require Import List NArith ZArith.",
-         "From HV Require Import Base.Str Base.C14Base."]
-    for _, mod, _ in loadable:
-        L.append(f"From HV Require Gen.{mod}.")
-    L += ["Import ListNotations.", "Local Open Scope N_scope.", "",
-          "Definition known_versions : list (str * list str) := ["
-          + "; ".join(f"({cstr(k)}, [{'; '.join(cstr(v) for v in vs)}])" for k, vs in sorted(known.items())) + "].",
-          "",
-          "Definition id_ranges : list (str * (Z * Z)) := ["
-          + "; ".join(f"({cstr(k)}, ({a}%Z, {b}%Z))" for k, (a, b) in sorted(ranges.items())) + "].",
-          "",
-          "Definition plurals : list (str * str) := ["
-          + ";\n  ".join(f"({cstr(k)}, {cstr(v)})" for k, v in sorted(plurals.items())) + "].",
-          "",
-          "Definition loadable : list (str * rschema) := ["
-          + ";\n  ".join(f"({cstr(n)}, Gen.{mod}.{d})" for n, mod, d in loadable) + "].",
-          ""]
+         "From HV Require Import Base.Str Base.C14Base.",
+         "Import ListNotations.", "Local Open Scope N_scope.", "",
+         "Definition known_versions : list (str * list str) := ["
+         + "; ".join(f"({cstr(k)}, [{'; '.join(cstr(v) for v in vs)}])" for k, vs in sorted(known.items())) + "].",
+         "",
+         "Definition id_ranges : list (str * (Z * Z)) := ["
+         + "; ".join(f"({cstr(k)}, ({a}%Z, {b}%Z))" for k, (a, b) in sorted(ranges.items())) + "].",
+         "",
+         "Definition plurals : list (str * str) := ["
+         + ";\n  ".join(f"({cstr(k)}, {cstr(v)})" for k, v in sorted(plurals.items())) + "].",
+         ""]
     return "\n".join(L)
